@@ -181,13 +181,17 @@ def udpCkPostIp (h : Udp) (pseudo : Nat) (payload : Bytes) : Nat :=
   let s := addSlice64 s payload
   swap16 (onesComplementNoZero64 s)
 
+/-- the length bytes both UDP pseudo headers are given: `self.length.to_be_bytes()` (the 16 bit
+    field of the header, also for IPv6) -/
+def udpPseudoLen (h : Udp) : Bytes := enc16 h.len
+
 /-- `UdpHeader::calc_checksum_ipv4_internal` (pseudo header: source, destination, `[0, 17]`,
     `self.length`) -/
 def udpCkIpv4Internal (h : Udp) (src dst payload : Bytes) : Nat :=
   let s := add4_64 0 src
   let s := add4_64 s dst
   let s := add2_64 s [0, 17]
-  let s := add2_64 s (enc16 h.len)
+  let s := add2_64 s (udpPseudoLen h)
   udpCkPostIp h s payload
 
 /-- `Sum16BitWords::add_16bytes`: two `add_8bytes` -/
@@ -198,7 +202,7 @@ def udpCkIpv6Internal (h : Udp) (src dst payload : Bytes) : Nat :=
   let s := add16_64 0 src
   let s := add16_64 s dst
   let s := add2_64 s [0, 17]
-  let s := add2_64 s (enc16 h.len)
+  let s := add2_64 s (udpPseudoLen h)
   udpCkPostIp h s payload
 
 /-- `UdpHeader::without_ipv4_checksum(source_port, destination_port, payload_length: usize)`;
